@@ -91,8 +91,7 @@ func VerifC02FeedsEndBlockWith(endBlocker func(sdk.Context, Keeper) error) {
 		k.SetCurrentFeeds(ctx, []types.Feed{types.NewFeed(c07Universe[0], vs.I64("feed_power"), iv)})
 	}
 	// one validator: bonded or not, oracle-active or not, with or without a price for the feed
-	tokens := vs.U64("tokens")
-	vs.Assume(tokens >= 1)
+	tokens := []uint64{1, 1000}[vs.Pick("tokens", 2)] // 1 makes bonded*quorum truncate to zero
 	st := stakingtypes.Unbonded
 	if vs.Bool("bonded") {
 		st = stakingtypes.Bonded
